@@ -90,12 +90,12 @@ def sanitize_variable_name(
         template: A template to use for sanitized names, which is mainly useful
             if you need to undo the sanitization by string replacement.
     """
-    if template == "{}" and (name.isidentifier() or keyword.iskeyword(name)):
+    if template == "{}" and name.isidentifier() and not keyword.iskeyword(name):
         return name
 
     # Compute recognisable basename
     base_name = "".join([char if re.match(r"\w", char) else "_" for char in name])
-    if not base_name or base_name[0].isdigit():
+    if not base_name or base_name[0].isdigit() or keyword.iskeyword(base_name):
         base_name = "_" + base_name
 
     # Verify new name is not in env already, and if not add a random suffix.
